@@ -19,7 +19,9 @@ ASSUMPTIONS = ['regular expressions are drawn from pools (symbolic regexes defea
 
 def obligations(tier):
     c1 = {o.id: o for o in c01.obligations(tier)}
-    return [
+    from . import c14 as _c14
+    legacy = [o for o in _c14.obligations(tier) if o.id == 'E.read']      # listings of snapshots written by an independent / older writer: true times
+    return legacy + [
         Ob('S.select', 'S', 'restore plan = matching paths, each once, from the newest snapshot containing it', '3 snapshots x 2 paths symbolic presence (third path fixed in snapshots 1 and 3), 6 timestamp orders, 4 filters',
            [Rp + 'restore'], module=H, func='s_select', timeout=1200),
         c1['P1'], c1['P1s'],
